@@ -1211,6 +1211,18 @@ def partial_clauses(prop):
         "BLIND SPOT user subclasses whose instances can be falsy (__len__ = number of children / __bool__) are NOT generated: "
         "the unchanged tree itself fails there (add_path_to_tree / find_children test `if not node` / `if _node`, so an "
         "existing leaf is taken for missing and a duplicate sibling is refused with TreeError) - reported as a possible finding",
+        "histories: C05_history_adds_exact proves, for EVERY history of add_path_to_tree calls and the modelled edits (del "
+        "parent[name], re-parent, sort) on one tree with duplicates allowed, that each accepted add is exact against the tree as "
+        "it is then (paths = before U prefixes, returned node at the path, node objects reused / new).  Not a theorem: the full "
+        "prop_C05 per add of a history (needs the guards - distinct attribute keys, non-empty names - carried through the edits), "
+        "duplicates disallowed inside histories, two-root histories (the model is one pure function per tree, the second root "
+        "is exercised by the correspondence only)",
+        "umbrella theorems still missing for the DataFrame/polars kinds (KFrame, KPolars, KAddFrame, KAddPolars) and for the "
+        "boolean prop_byname (KNameDict, KNameFrame, KNamePolars): attempted in the time given, not finished - the frame kinds "
+        "need has_duplicate_attribute on stripped strings = conflict on parsed paths, strip idempotence and the root-kwargs "
+        "re-application argument; prop_byname needs a position-indexed lock-step of all_pos / pre / pre of the result and, for "
+        "the dict kind, distinct keys.  What is proved for them: C05_frame_to_tree_closure, C05_attrs_frame, "
+        "C05_attrs_frame_nulls, C05_attrs_rows_exact, C05_accept_verdict; C05_by_name_exact / _dict / _frame / _frame_rows",
         "BLIND SPOT histories use duplicate_name_allowed=True only and the edits del / re-parent / sort (no shift_nodes / "
         "copy_nodes, no renaming of nodes, no edits of the root's separator between calls)",
         "BLIND SPOT assertions switched off (BIGTREE_CONF_ASSERTIONS) and trees whose sibling names are not unique are not "
